@@ -475,11 +475,14 @@ func (g *gen) genesis() M {
 	}
 	nk := 1 + g.r.Intn(8)
 	atts := []any{}
+	if g.p(0.03) {
+		nk = 0 // a chain without attesters
+	}
 	for _, i := range g.r.Perm(8)[:nk] {
 		atts = append(atts, M{"key": keyNames[i], "sp": g.pick([]string{"hex", "hex", "0x", "UP"})})
 	}
 	s := M{"owner": g.pick(accts), "pending": "none", "attMgr": g.pick(accts), "pauser": g.pick(accts), "tokCtl": g.pick(accts),
-		"attesters": atts, "threshold": 1 + g.r.Intn(nk), "pausedBM": g.p(0.1), "pausedSR": g.p(0.1),
+		"attesters": atts, "threshold": 1 + g.r.Intn(nk+1-b2i(nk > 0)), "pausedBM": g.p(0.1), "pausedSR": g.p(0.1),
 		"maxBody": []int{132, 200, 8000}[g.r.Intn(3)], "nextNonce": g.r.Intn(5), "used": []any{}, "pairs": []any{}, "msgrs": []any{},
 		"limits": []any{}, "bal": bal, "supply": supply}
 	if g.p(0.3) {
